@@ -13,7 +13,7 @@
    (Related statements are grouped into one conjunction each: every Print Assumptions costs
    about 0.6 s whatever the statement.) *)
 From Verif Require Import Base.Order Num.Decimal Num.IntDiv Num.Eval Num.NumLit Num.NumLitSpec
-     Num.DVal Num.DigitsProofs Num.RoundProofs Num.ArithProofs Num.QuoProofs Num.DcmpProofs
+     Num.DVal Num.DigitsProofs Num.RoundProofs Num.ArithProofs Num.QuoProofs Num.QuoExactProofs Num.DcmpProofs
      Num.CmpProofs Num.IntDivProofs Num.NumLitProofs Num.NumLitGrammar Num.LitProofs Num.LitValueProofs
      Num.Examples.
 From Coq Require Import List NArith ZArith QArith Qabs.
@@ -175,6 +175,16 @@ Theorem C06_quo_correctly_rounded : forall x y,
     (coeff x = 0%N -> dval (dquo x y) == 0).
 Proof. exact dquo_correctly_rounded. Qed.
 Print Assumptions C06_quo_correctly_rounded.
+
+(* no representable quotient is lost: if x / y is a decimal of at most 34 digits, dquo returns it;
+   in particular every integer quotient below 10^34 ("never loses integer exactness") *)
+Theorem C06_quo_exact_when_representable :
+  (forall x y r, coeff x <> 0%N -> coeff y <> 0%N -> (digits (coeff r) <= 34)%N ->
+     dval r * dval y == dval x -> dval (dquo x y) == dval r) /\
+  (forall x y (n : Z), coeff x <> 0%N -> coeff y <> 0%N -> (Z.abs n < 10 ^ 34)%Z ->
+     inject_Z n * dval y == dval x -> dval (dquo x y) == inject_Z n).
+Proof. exact (conj dquo_exact_when_representable dquo_integer_exact). Qed.
+Print Assumptions C06_quo_exact_when_representable.
 
 Theorem C06_quo_sign_and_reduce : forall x y,
   (coeff x <> 0%N -> coeff y <> 0%N -> neg (dquo x y) = xorb (neg x) (neg y)) /\
